@@ -12,7 +12,7 @@ def run(tier, seed):
     ctx.invariants = ["ProjectionLaws", "ProjectionEqualsDirect", "ShapesMatch", "SourceUntouched"]
     cfg = "MC_HistND_c09q" if tier == "quick" else "MC_HistND_c09t"
     _res, g = ctx.model_check(cfg, required_actions=REQ)
-    combos = [("dyadic", "int", 0), ("ulp", "half", 1)]
+    combos = [("dyadic", "int", 0), ("ulp", "half", 1), ("dyadic", "int", 2)]
     if tier == "thorough":
         combos += [("decimal", "int", 2), ("neg", "float1", 1)]
     for pe, we, sp in combos:
